@@ -330,7 +330,7 @@ def machine_strategy(name, mod):
         return st.builds(lambda wd, t, e: {"window": wd, "two_conns": t, "events": [list(x) for x in e]},
                          st.integers(1, 4), st.booleans(), st.lists(req, min_size=1, max_size=8))
     if name == "c10":
-        return None
+        return mod.cases_strategy()
     return None
 
 
@@ -339,7 +339,7 @@ def run(tier, scale=1.0):
     rec = Recorder(PID)
     for d in hyp.pool_run(shard_main, (tier, scale)):
         rec.merge(d)
-    required = {"machine:dedicated": 1, "machine:c06": 1, "machine:c12": 1, "machine:c09": 1, "ev:NODE_CLOSE": 1,
+    required = {"machine:dedicated": 1, "machine:c10": 1, "machine:c06": 1, "machine:c12": 1, "machine:c09": 1, "ev:NODE_CLOSE": 1,
                 "ev:ACCEPT": 1, "ev:DIAL": 1, "ev:RESET": 1}
     return finish(rec, tier=tier, level="exploration", rule=RULE, assumptions=ASSUME, t0=t0,
                   required_classes=required)
